@@ -283,3 +283,16 @@ package components
 //@   loop 2 invariant drained: p == old(p) && p.outPorts == old(p.outPorts) && p.inPorts == old(p.inPorts) && p.inPorts["in"] == old(p.inPorts["in"]) && p.inPorts["in"].Chan == old(p.inPorts["in"].Chan) && wfSrcOut(p.BaseProcess, "out") && chanRecvN(p.inPorts["in"].Chan) == chanTotal(p.inPorts["in"].Chan) && outIPsByTag != nil && (forall k string :: k in outIPsByTag ==> validIP(outIPsByTag[k]))
 //@   loop 0 step untagged-arrival-appends-content-then-newline[C19]: tagVal == "" ==> fwN[outFh] == prev(fwN)[outFh] + 2 && fwAt[outFh][prev(fwN)[outFh]] == dat && fwAt[outFh][prev(fwN)[outFh] + 1] == "\n" && dat == fileBytes(inIP.path, fsEpoch)
 //@   loop 0 step earlier-content-kept[C19]: tagVal == "" ==> forall j int :: 0 <= j && j < prev(fwN)[outFh] ==> fwAt[outFh][j] == prev(fwAt)[outFh][j]
+
+// Combinators. The Cartesian product itself (recursive combine: nonlinear index arithmetic) is NOT under proof; a bounded
+// stand-in runs the real functions exhaustively over a small domain (reported as BOUNDED, never counted as proved).
+//@ func combine(inParams, keys) (res)
+//@   props C19
+//@   trusted recursion over the key list with nonlinear index arithmetic (head x tail expansion): not brought under proof
+//@   modifies fresh
+//@   bounded cartesian-product-exactly-once[C19]: combine_param_test.go TestGovcBoundedCombineParam :: at most 3 ports, at most 3 distinct values per port, every order of the key list
+//@ func (*FileCombinator).combine(p, inIPs, keys) (res)
+//@   props C19
+//@   trusted recursion over the key list with nonlinear index arithmetic (head x tail expansion): not brought under proof
+//@   modifies fresh
+//@   bounded cartesian-product-exactly-once[C19]: combine_file_test.go TestGovcBoundedCombineFile :: at most 3 ports, at most 3 distinct files per port, every order of the key list
